@@ -152,14 +152,90 @@ func deliveryWithin(c *Case, n int, prompt bool) bool {
 	return false
 }
 
+// genCase draws a history of 1-3 duties served by one proposer service, with
+// the order in which the controller prepares and proposes them.
 func genCase(t *rapid.T) Case {
+	c := genDuty(t, nil, nil)
+	n := pick(t, []int{0, 0, 0, 0, 0, 1, 1, 1, 2, 2}, "moreDuties")
+	taken := []uint64{c.DutySlot}
+	for i := 0; i < n; i++ {
+		d := genDuty(t, &c, taken)
+		taken = append(taken, d.DutySlot)
+		c.More = append(c.More, d)
+	}
+	if n > 0 {
+		// The controller prepares the duties of an epoch when it starts and proposes
+		// each at its slot: all prepared first, or one duty after the other, or a mix.
+		var order []string
+		switch uni(t, 3, "orderKind") {
+		case 0: // prepare all, then propose in slot order of generation
+			for i := 0; i <= n; i++ {
+				order = append(order, fmt.Sprintf("prepare:%d", i))
+			}
+			for i := 0; i <= n; i++ {
+				order = append(order, fmt.Sprintf("propose:%d", i))
+			}
+		case 1: // one after the other
+			for i := 0; i <= n; i++ {
+				order = append(order, fmt.Sprintf("prepare:%d", i), fmt.Sprintf("propose:%d", i))
+			}
+		default: // prepare all, propose in reverse
+			for i := 0; i <= n; i++ {
+				order = append(order, fmt.Sprintf("prepare:%d", i))
+			}
+			for i := n; i >= 0; i-- {
+				order = append(order, fmt.Sprintf("propose:%d", i))
+			}
+		}
+		c.Order = order
+	}
+	return c
+}
+
+// genDuty draws one duty.  svc == nil: the first duty, which also fixes what is
+// configured per service (slots per epoch, whether a graffiti provider and an
+// auctioneer exist, unblind-from-all-relays).  Otherwise a further duty of the
+// same service: in the same epoch as the first (another validator or the same
+// one), or in another epoch; never for a slot that already has a duty.
+func genDuty(t *rapid.T, svc *Case, taken []uint64) Case {
 	c := Case{
-		Version:       pick(t, []string{"phase0", "altair", "bellatrix", "capella", "deneb"}, "version"),
-		SlotsPerEpoch: pick(t, []uint64{32, 8}, "spe"),
-		DutySlot:      rapid.Uint64Range(1, 100000).Draw(t, "dutySlot"),
-		DutyIndex:     rapid.Uint64Range(0, universe-1).Draw(t, "dutyIndex"),
-		ParentSeed:    rapid.Uint8().Draw(t, "parentSeed"),
-		StateSeed:     rapid.Uint8().Draw(t, "stateSeed"),
+		Version:    pick(t, []string{"phase0", "altair", "bellatrix", "capella", "deneb"}, "version"),
+		ParentSeed: rapid.Uint8().Draw(t, "parentSeed"),
+		StateSeed:  rapid.Uint8().Draw(t, "stateSeed"),
+	}
+	if svc == nil {
+		c.SlotsPerEpoch = pick(t, []uint64{32, 8}, "spe")
+		c.DutySlot = rapid.Uint64Range(1, 100000).Draw(t, "dutySlot")
+		c.DutyIndex = rapid.Uint64Range(0, universe-1).Draw(t, "dutyIndex")
+	} else {
+		c.SlotsPerEpoch = svc.SlotsPerEpoch
+		first := svc.DutySlot / svc.SlotsPerEpoch * svc.SlotsPerEpoch
+		switch pick(t, []string{"same-epoch", "same-epoch", "same-epoch", "next-epoch", "far"}, "epochRelation") {
+		case "same-epoch":
+			c.DutySlot = first + uint64(uni(t, int(svc.SlotsPerEpoch), "slotInEpoch"))
+		case "next-epoch":
+			c.DutySlot = first + svc.SlotsPerEpoch + uint64(uni(t, int(svc.SlotsPerEpoch), "slotInEpoch"))
+		default:
+			c.DutySlot = first + svc.SlotsPerEpoch*uint64(2+uni(t, 50, "epochsAhead")) + uint64(uni(t, int(svc.SlotsPerEpoch), "slotInEpoch"))
+		}
+		for again := true; again || c.DutySlot == 0; {
+			again = false
+			for _, s := range taken {
+				if s == c.DutySlot {
+					c.DutySlot++
+					again = true
+				}
+			}
+			if c.DutySlot == 0 {
+				c.DutySlot = 1
+				again = true
+			}
+		}
+		if pct(t, 25, "sameValidator") {
+			c.DutyIndex = svc.DutyIndex
+		} else {
+			c.DutyIndex = (svc.DutyIndex + 1 + uint64(uni(t, universe-1, "otherValidator"))) % universe
+		}
 	}
 	if blindable(c.Version) {
 		c.Blinded = rapid.Bool().Draw(t, "blinded")
@@ -221,7 +297,14 @@ func genCase(t *rapid.T) Case {
 	if pct(t, 4, "randaoErr") {
 		c.Randao = "error"
 	}
-	c.Graffiti = pick(t, []string{"ok", "ok", "ok", "none", "error", "error"}, "graffiti")
+	switch {
+	case svc == nil:
+		c.Graffiti = pick(t, []string{"ok", "ok", "ok", "none", "error", "error"}, "graffiti")
+	case svc.Graffiti == "none":
+		c.Graffiti = "none"
+	default:
+		c.Graffiti = pick(t, []string{"ok", "ok", "error"}, "graffiti")
+	}
 	if c.Graffiti == "ok" {
 		// printable, so that the {{CLIENT}} substitution (not part of C05) never triggers
 		c.GraffitiText = []byte(rapid.StringOfN(rapid.RuneFrom([]rune("abcXYZ019 -_")), 0, 32, 32).Draw(t, "graffitiText"))
@@ -232,12 +315,24 @@ func genCase(t *rapid.T) Case {
 		c.GraffitiDelayMs = pick(t, []int{2200, 2600, 3000}, "graffitiDelayMs")
 	}
 
-	if c.Blinded {
+	switch {
+	case svc != nil && svc.Auction == "absent":
+		c.Auction = "absent" // no auctioneer configured
+	case svc != nil && c.Blinded:
+		c.Auction = pick(t, []string{"result", "result", "result", "result", "result", "result", "result", "result", "result", "error"}, "auctionBlinded")
+	case svc != nil:
+		c.Auction = pick(t, []string{"result", "result", "result", "error", "error"}, "auction")
+	case c.Blinded:
 		// mostly with an auction result; without one (no auctioneer, failed auction)
 		// nothing can unblind the block and nothing may be submitted
 		c.Auction = pick(t, []string{"result", "result", "result", "result", "result", "result", "result", "result", "absent", "error"}, "auctionBlinded")
-	} else {
+	default:
 		c.Auction = pick(t, []string{"absent", "absent", "error", "error", "result", "result", "result"}, "auction")
+	}
+	if svc == nil {
+		c.UnblindAll = pct(t, 35, "unblindAll")
+	} else {
+		c.UnblindAll = svc.UnblindAll
 	}
 	if c.Auction == "result" {
 		nRelays := pick(t, []int{1, 1, 2, 2, 2, 3, 3, 4, 0}, "nRelays")
@@ -256,7 +351,6 @@ func genCase(t *rapid.T) Case {
 			r.Winner = !noWinner && rapid.Bool().Draw(t, "winner")
 			c.Relays = append(c.Relays, r)
 		}
-		c.UnblindAll = pct(t, 35, "unblindAll")
 		if faulty && len(c.Relays) >= 2 && pct(t, 25, "lateAndFailing") {
 			// two relays that are used together: one keeps failing, the other holds
 			// the payload but answers only after the first has used up its back-offs
@@ -299,13 +393,14 @@ func genCase(t *rapid.T) Case {
 
 type observation struct {
 	w             *world
+	prepared      bool
 	prepareErr    error
 	proposeCalled bool
+	stuck         bool // a relay delivered, nothing was submitted within stuckBound, Propose still running with a live context
 	returnSeq     int
 	ctxExpired    bool
 	panicked      string
 	hung          bool
-	harness       string
 
 	randaos   []randaoCall
 	signs     []signCall
@@ -329,110 +424,255 @@ func topVouchFrame(stack string) string {
 	return "unknown"
 }
 
-func run(c *Case) *observation {
+// stuckBound: how long after a relay double has returned the full block Propose
+// may take to submit it before the harness stops waiting (the hand-over inside
+// vouch takes microseconds).
+const stuckBound = 5 * time.Second
+
+// duties returns the duties of the history (the first one stripped of More and
+// Order, the others normalised to what is configured per service).
+func duties(c *Case) []*Case {
+	first := *c
+	first.More, first.Order = nil, nil
+	res := []*Case{&first}
+	for i := range c.More {
+		d := c.More[i]
+		d.More, d.Order = nil, nil
+		d.SlotsPerEpoch, d.UnblindAll = first.SlotsPerEpoch, first.UnblindAll
+		if first.Graffiti == "none" {
+			d.Graffiti, d.GraffitiDelayMs = "none", 0
+		} else if d.Graffiti == "none" {
+			d.Graffiti = "ok"
+		}
+		if first.Auction == "absent" {
+			d.Auction = "absent"
+		} else if d.Auction == "absent" {
+			d.Auction = "error"
+		}
+		res = append(res, &d)
+	}
+	for _, d := range res {
+		if d.Auction != "result" {
+			d.Relays = nil // relays exist only in an auction result
+		}
+	}
+	return res
+}
+
+type step struct {
+	op   string
+	duty int
+}
+
+// orderOf parses Case.Order; every duty is prepared exactly once before it is
+// (at most once) proposed.  An empty or unusable order means one duty after the
+// other.
+func orderOf(c *Case, n int) []step {
+	var res []step
+	prepared, proposed := map[int]bool{}, map[int]bool{}
+	ok := len(c.Order) > 0
+	for _, o := range c.Order {
+		var st step
+		if _, err := fmt.Sscanf(strings.Replace(o, ":", " ", 1), "%s %d", &st.op, &st.duty); err != nil || st.duty < 0 || st.duty >= n {
+			ok = false
+			break
+		}
+		switch {
+		case st.op == "prepare" && !prepared[st.duty]:
+			prepared[st.duty] = true
+		case st.op == "propose" && prepared[st.duty] && !proposed[st.duty]:
+			proposed[st.duty] = true
+		default:
+			ok = false
+		}
+		res = append(res, st)
+	}
+	if ok && len(prepared) == n {
+		return res
+	}
+	res = nil
+	for i := 0; i < n; i++ {
+		res = append(res, step{"prepare", i}, step{"propose", i})
+	}
+	return res
+}
+
+// run executes the history against one fresh proposer service.
+func run(c *Case) (obs []*observation, harness string) {
 	zerolog.SetGlobalLevel(zerolog.Disabled)
-	w := newWorld(c)
-	o := &observation{w: w}
+	ds := duties(c)
+	accounts := newAccounts()
+	rt := &router{}
+	var worlds []*world
+	for i, d := range ds {
+		w := newWorld(i, d, accounts)
+		worlds = append(worlds, w)
+		obs = append(obs, &observation{w: w})
+	}
+	rt.set(worlds[0])
 	bg, cancelAll := context.WithCancel(context.Background())
 	defer cancelAll()
 
-	clock := fakes.NewVClock(time.Unix(1606824023, 0), 12*time.Second, c.SlotsPerEpoch)
-	clock.SetSlot(c.DutySlot, 0)
+	first := ds[0]
+	clock := fakes.NewVClock(time.Unix(1606824023, 0), 12*time.Second, first.SlotsPerEpoch)
+	clock.SetSlot(first.DutySlot, 0)
 	params := []proposer.Parameter{
 		proposer.WithLogLevel(zerolog.Disabled),
 		proposer.WithMonitor(nullmetrics.New()),
 		proposer.WithChainTime(clock),
-		proposer.WithProposalDataProvider(nodeDouble{w}),
-		proposer.WithValidatingAccountsProvider(accountsDouble{w}),
-		proposer.WithProposalSubmitter(submitDouble{w}),
-		proposer.WithRANDAORevealSigner(signerDouble{w}),
-		proposer.WithBeaconBlockSigner(signerDouble{w}),
-		proposer.WithBlobSidecarSigner(signerDouble{w}),
-		proposer.WithUnblindFromAllRelays(c.UnblindAll),
+		proposer.WithProposalDataProvider(nodeDouble{rt}),
+		proposer.WithValidatingAccountsProvider(accountsDouble{rt}),
+		proposer.WithProposalSubmitter(submitDouble{rt}),
+		proposer.WithRANDAORevealSigner(signerDouble{rt}),
+		proposer.WithBeaconBlockSigner(signerDouble{rt}),
+		proposer.WithBlobSidecarSigner(signerDouble{rt}),
+		proposer.WithUnblindFromAllRelays(first.UnblindAll),
 		proposer.WithBuilderBoostFactor(100),
 	}
-	if c.Graffiti != "none" {
-		params = append(params, proposer.WithGraffitiProvider(graffitiDouble{w}))
+	if first.Graffiti != "none" {
+		params = append(params, proposer.WithGraffitiProvider(graffitiDouble{rt}))
 	}
-	if c.Auction != "absent" {
-		params = append(params, proposer.WithBlockAuctioneer(newAuction(w)), proposer.WithExecutionChainHeadProvider(headDouble{w}))
+	if first.Auction != "absent" {
+		params = append(params, proposer.WithBlockAuctioneer(auctionRouter{rt}), proposer.WithExecutionChainHeadProvider(headDouble{rt}))
 	}
 	svc, err := proposer.New(bg, params...)
 	if err != nil {
-		o.harness = "cannot construct the proposer service: " + err.Error()
-		return o
+		return obs, "cannot construct the proposer service: " + err.Error()
 	}
 
 	// What services/controller/standard/proposer.go does for a duty: Prepare, and
 	// only if that succeeded, Propose (scheduled for the start of the slot).
-	duty := beaconblockproposer.NewDuty(phase0.Slot(c.DutySlot), phase0.ValidatorIndex(c.DutyIndex))
-	o.prepareErr = svc.Prepare(bg, duty)
-	if o.prepareErr == nil {
+	dutyObjs := make([]*beaconblockproposer.Duty, len(ds))
+	for i, d := range ds {
+		dutyObjs[i] = beaconblockproposer.NewDuty(phase0.Slot(d.DutySlot), phase0.ValidatorIndex(d.DutyIndex))
+	}
+	for _, st := range orderOf(c, len(ds)) {
+		d, w, o, duty := ds[st.duty], worlds[st.duty], obs[st.duty], dutyObjs[st.duty]
+		rt.set(w)
+		clock.SetSlot(d.DutySlot, 0)
+		if st.op == "prepare" {
+			o.prepareErr = svc.Prepare(bg, duty)
+			o.prepared = true
+			continue
+		}
+		if !o.prepared || o.prepareErr != nil {
+			continue
+		}
 		o.proposeCalled = true
-		ctx, cancel := context.WithTimeout(bg, time.Duration(c.DeadlineMs)*time.Millisecond)
-		done := make(chan string, 1)
-		go func() {
-			defer func() {
-				if r := recover(); r != nil {
-					done <- fmt.Sprintf("%v @ %s", r, topVouchFrame(string(debug.Stack())))
-					return
-				}
-				done <- ""
-			}()
-			svc.Propose(ctx, duty)
+		propose(bg, svc, d, w, o, duty)
+		if o.hung {
+			break
+		}
+	}
+	for i, w := range worlds {
+		o := obs[i]
+		w.mu.Lock()
+		o.randaos = append(o.randaos, w.randaos...)
+		o.signs = append(o.signs, w.signs...)
+		o.proposals = append(o.proposals, w.proposals...)
+		for _, s := range w.sends {
+			o.sends = append(o.sends, *s)
+		}
+		o.submits = append(o.submits, w.submits...)
+		o.graffitis = append(o.graffitis, w.graffitis...)
+		o.empties = w.emptyRequests
+		w.mu.Unlock()
+	}
+	return obs, ""
+}
+
+func liveSubmission(w *world) bool {
+	w.mu.Lock()
+	defer w.mu.Unlock()
+	for _, sub := range w.submits {
+		if !sub.dead {
+			return true
+		}
+	}
+	return false
+}
+
+// propose calls Propose for one duty under the case's deadline and watches it.
+func propose(bg context.Context, svc *proposer.Service, c *Case, w *world, o *observation, duty *beaconblockproposer.Duty) {
+	ctx, cancel := context.WithTimeout(bg, time.Duration(c.DeadlineMs)*time.Millisecond)
+	defer cancel()
+	done := make(chan string, 1)
+	go func() {
+		defer func() {
+			if r := recover(); r != nil {
+				done <- fmt.Sprintf("%v @ %s", r, topVouchFrame(string(debug.Stack())))
+				return
+			}
+			done <- ""
 		}()
-		watchdog := time.NewTimer(time.Duration(c.DeadlineMs)*time.Millisecond + 60*time.Second)
+		svc.Propose(ctx, duty)
+	}()
+	watchdog := time.NewTimer(time.Duration(c.DeadlineMs)*time.Millisecond + 60*time.Second)
+	defer watchdog.Stop()
+	returned := false
+	select {
+	case o.panicked = <-done:
+		returned = true
+	case <-watchdog.C:
+		o.hung = true
+	case <-w.delivered:
+		// A relay double has handed the full block to vouch.  From here on the only
+		// thing left to do is to submit it.
+		bound := time.NewTimer(stuckBound)
 		select {
 		case o.panicked = <-done:
-		case <-watchdog.C:
-			o.hung = true
-		}
-		watchdog.Stop()
-		w.mu.Lock()
-		o.ctxExpired = ctx.Err() != nil
-		o.returnSeq = w.next()
-		submitted := false
-		for _, sub := range w.submits {
-			if !sub.dead {
-				submitted = true
+			returned = true
+		case <-bound.C:
+			if liveSubmission(w) {
+				// submitted; wait for Propose to come back
+				select {
+				case o.panicked = <-done:
+					returned = true
+				case <-watchdog.C:
+					o.hung = true
+				}
+			} else {
+				// delivered by a relay, not submitted, Propose still busy although its
+				// context is alive: judged from the doubles' log; the goroutine is
+				// abandoned (it ends with the context)
+				o.stuck = ctx.Err() == nil
 			}
 		}
-		w.mu.Unlock()
-		if !o.ctxExpired && !submitted && !o.hung {
-			// Propose gave up although its context is alive.  Relay requests that
-			// vouch made are possibly still being answered: let them finish under the
-			// same live context, so that the oracle can tell "no relay returns the
-			// block" from "vouch did not wait for the relay that does".
-			waitUntil := time.Now().Add(5 * time.Second)
-			for time.Now().Before(waitUntil) {
-				pending := false
-				w.mu.Lock()
-				for _, s := range w.sends {
-					if s.retSeq == 0 && delivers(s.outcome) {
-						pending = true
-					}
-				}
-				w.mu.Unlock()
-				if !pending {
-					break
-				}
-				time.Sleep(5 * time.Millisecond)
-			}
-		}
-		cancel()
+		bound.Stop()
 	}
 	w.mu.Lock()
-	o.randaos = append(o.randaos, w.randaos...)
-	o.signs = append(o.signs, w.signs...)
-	o.proposals = append(o.proposals, w.proposals...)
-	for _, s := range w.sends {
-		o.sends = append(o.sends, *s)
-	}
-	o.submits = append(o.submits, w.submits...)
-	o.graffitis = append(o.graffitis, w.graffitis...)
-	o.empties = w.emptyRequests
+	o.ctxExpired = ctx.Err() != nil
+	o.returnSeq = w.next()
 	w.mu.Unlock()
-	return o
+	if returned && !o.ctxExpired && !liveSubmission(w) {
+		// Propose gave up although its context is alive.  Relay requests that
+		// vouch made are possibly still being answered: let them finish under the
+		// same live context, so that the oracle can tell "no relay returns the
+		// block" from "vouch did not wait for the relay that does".
+		waitUntil := time.Now().Add(5 * time.Second)
+		for time.Now().Before(waitUntil) {
+			pending := false
+			w.mu.Lock()
+			for _, s := range w.sends {
+				if s.retSeq == 0 && delivers(s.outcome) {
+					pending = true
+				}
+			}
+			w.mu.Unlock()
+			if !pending {
+				break
+			}
+			time.Sleep(5 * time.Millisecond)
+		}
+	}
+	cancel()
+	if !returned && !o.hung {
+		// give the abandoned Propose the chance to end with its context
+		select {
+		case <-done:
+		case <-time.After(5 * time.Second):
+		}
+	}
 }
 
 // --------------------------------------------------------------------- oracle
@@ -625,6 +865,17 @@ func judge(c *Case, o *observation) (fs []finding, labels []string, inconclusive
 		return fs, labels, ""
 	}
 	for _, p := range o.proposals {
+		ofDuty := false
+		for _, r := range o.randaos {
+			if r.err == nil && r.seq < p.seq && r.sig == p.opts.RandaoReveal && r.account == dutyAcc && r.slot == c.DutySlot {
+				ofDuty = true
+			}
+		}
+		if !ofDuty {
+			add("randao-reveal-not-of-duty", "the proposal for duty %d@%d was requested with RANDAO reveal %#x, which is not a reveal obtained for this duty's validator and slot", c.DutyIndex, c.DutySlot, p.opts.RandaoReveal[:12])
+		}
+	}
+	for _, p := range o.proposals {
 		// what the graffiti provider had answered by then (nothing, an error, or a text)
 		var wantGraffiti [32]byte
 		var last *graffitiCall
@@ -753,6 +1004,8 @@ func judge(c *Case, o *observation) (fs []finding, labels []string, inconclusive
 			}
 		}
 		switch {
+		case o.stuck && delivered && liveSubmits == 0:
+			add("relay-block-not-submitted", "a relay returned the full block to vouch's request; %v later nothing was submitted and Propose was still waiting although its context was alive", stuckBound)
 		case !delivered && liveSubmits == 0 && !o.ctxExpired && abandoned >= 0:
 			add("relay-block-not-submitted", "Propose gave up (its context still alive) while relay %d, which had been sent the signed blinded block, was still answering; that relay then returned the full block and nothing was submitted", abandoned)
 		case delivered && liveSubmits == 0 && o.ctxExpired:
@@ -846,39 +1099,90 @@ func caseLabels(c *Case) []string {
 }
 
 func check(t ev.TB, c *Case) {
-	if ex := excluded(c); ex != "" {
-		ev.Case(false, ev.Hash(c), ex)
-		return
+	ds := duties(c)
+	for _, d := range ds {
+		if ex := excluded(d); ex != "" {
+			ev.Case(false, ev.Hash(c), ex)
+			return
+		}
 	}
-	if c.Auction != "result" && len(c.Relays) > 0 {
-		// relays exist only in an auction result (hand-written replay inputs)
-		cc := *c
-		cc.Relays = nil
-		c = &cc
+	obs, harness := run(c)
+	if harness != "" {
+		t.Fatalf("harness problem: %s", harness)
 	}
-	o := run(c)
-	if o.harness != "" {
-		t.Fatalf("harness problem: %s", o.harness)
+	var fs []finding
+	var labels []string
+	nt := len(ds) > 1
+	for i, d := range ds {
+		o := obs[i]
+		if o.hung {
+			t.Fatalf("harness problem: Propose of duty %d did not return within 60 s after its context ended and no relay had delivered (case %x)", i, ev.Hash(c))
+		}
+		f, l, inconclusive := judge(d, o)
+		for _, x := range f {
+			if len(ds) > 1 {
+				x.detail = fmt.Sprintf("duty %d of %d (%d@%d): %s", i, len(ds), d.DutyIndex, d.DutySlot, x.detail)
+			}
+			fs = append(fs, x)
+		}
+		labels = append(labels, l...)
+		labels = append(labels, caseLabels(d)...)
+		if o.empties > 0 {
+			labels = append(labels, "late-retry-without-block(refused-by-client)")
+		}
+		if inconclusive != "" {
+			ev.Inconclusive(inconclusive)
+		}
+		nt = nt || nontrivial(d)
 	}
-	if o.hung {
-		t.Fatalf("harness problem: Propose did not return within 60 s after its context ended (case %x)", ev.Hash(c))
+	labels = append(labels, historyLabels(c, ds)...)
+	// one count per label and history
+	seen := map[string]bool{}
+	var uniq []string
+	for _, l := range labels {
+		if !seen[l] {
+			seen[l] = true
+			uniq = append(uniq, l)
+		}
 	}
-	fs, labels, inconclusive := judge(c, o)
-	labels = append(labels, caseLabels(c)...)
-	if o.empties > 0 {
-		labels = append(labels, "late-retry-without-block(refused-by-client)")
-	}
-	nt := nontrivial(c)
-	ev.Case(nt, ev.Hash(c), labels...)
+	ev.Case(nt, ev.Hash(c), uniq...)
 	if nt {
 		ev.Sample(c)
-	}
-	if inconclusive != "" {
-		ev.Inconclusive(inconclusive)
 	}
 	for _, f := range fs {
 		ev.Violation(t, f.sig, c, "%s", f.detail)
 	}
+}
+
+func historyLabels(c *Case, ds []*Case) []string {
+	l := []string{fmt.Sprintf("duties:%d", len(ds))}
+	if len(ds) < 2 {
+		return l
+	}
+	spe := ds[0].SlotsPerEpoch
+	for i := range ds {
+		for j := i + 1; j < len(ds); j++ {
+			sameEpoch := ds[i].DutySlot/spe == ds[j].DutySlot/spe
+			sameVal := ds[i].DutyIndex == ds[j].DutyIndex
+			switch {
+			case sameEpoch && !sameVal:
+				l = append(l, "history:two-validators-same-epoch")
+			case sameEpoch:
+				l = append(l, "history:same-validator-twice-in-epoch")
+			case sameVal:
+				l = append(l, "history:same-validator-other-epoch")
+			default:
+				l = append(l, "history:other-validator-other-epoch")
+			}
+		}
+	}
+	st := orderOf(c, len(ds))
+	if len(st) >= 2 && st[0].op == "prepare" && st[1].op == "prepare" {
+		l = append(l, "history:prepared-ahead")
+	} else {
+		l = append(l, "history:one-after-the-other")
+	}
+	return l
 }
 
 func TestProposal(t *testing.T) {
